@@ -58,6 +58,9 @@ class Property:
     # the correspondence and the oracle are then run on `escalation` times as many cases.
     anchors = ()
     escalation = 6
+    # clauses of the property text that NO theorem covers (decided by correspondence / oracle / sampling only);
+    # copied into the evidence so that `discharged == obligations` is not read as "everything is proved"
+    clauses_without_theorem = ()
 
     # ---- to be provided by subclasses -------------------------------------------------
     def corpus(self):
@@ -199,6 +202,9 @@ def audit(props_module):
     rc, out = _run(['lake', 'env', 'lean', fn], cwd=LEAN, timeout=1200)
     thms = {}
     for m in re.finditer(r'THEOREM (\S+) AXIOMS \[([^\]]*)\]', out):
+        last = m.group(1).split('.')[-1]
+        if last in ('congr_simp', 'eq_def', 'sizeOf_spec', 'injEq', 'inj') or re.match(r'eq_\d+$', last) or last.startswith('_'):
+            continue          # lemmas Lean generates for definitions are not proof obligations of the property
         thms[m.group(1)] = [a.strip() for a in m.group(2).split(',') if a.strip()]
     return rc, thms, out
 
@@ -491,6 +497,7 @@ def check(prop, tier, seed):
             'trusted_base': TRUSTED_BASE,
             'theorems': sorted(thms),
             'partial_theorems': sorted(t for t in thms if t.endswith('_partial')),
+            'clauses_without_theorem': list(prop.clauses_without_theorem),
             'axioms_used': sorted({a for v in thms.values() for a in v}),
             'evaluations': len(cases), 'distinct_nontrivial': len(distinct),
             'rule': prop.rule,
@@ -508,8 +515,10 @@ def check(prop, tier, seed):
         'wall_s': round(time.time() - t0, 2),
         'violations': 1 if status else 0,
     }
-    os.makedirs(os.path.join(VERIF, 'evidence'), exist_ok=True)
-    with open(os.path.join(VERIF, 'evidence', pid + '.json'), 'w') as f:
+    # evidence describes runs against /repo only; a run against a scratch tree (VERIF_REPO, seeded mutants) must not overwrite it
+    evdir = os.path.join(VERIF, 'evidence') if os.path.abspath(REPO) == '/repo' else os.path.join(VERIF, 'replays', 'scratch-evidence')
+    os.makedirs(evdir, exist_ok=True)
+    with open(os.path.join(evdir, pid + '.json'), 'w') as f:
         json.dump(ev, f, indent=1, default=str)
     for l in lines:
         print(l)
